@@ -96,6 +96,50 @@ struct Sigma2ResumeMsg<'a> {
     _session_parameters: Option<crate::sc::SessionParameters>,
 }
 
+/// Verification hooks (feature `verif`): the derived `from_tlv` of the private Sigma2 /
+/// TBEData2 / Sigma2_Resume structures, field by field.
+#[cfg(feature = "verif")]
+pub fn verif_dec_sigma2<R>(
+    data: &[u8],
+    f: impl FnOnce(&[u8], u16, &[u8], &[u8]) -> R,
+) -> Result<R, Error> {
+    let v = Sigma2Resp::from_tlv(&TLVElement::new(data))?;
+    Ok(f(
+        v.responder_random.0,
+        v.responder_sessid,
+        v.responder_eph_pub_key.0,
+        v.encrypted2.0,
+    ))
+}
+
+#[cfg(feature = "verif")]
+pub fn verif_dec_tbe2<R>(
+    data: &[u8],
+    f: impl FnOnce(&[u8], Option<&[u8]>, &[u8], &[u8]) -> R,
+) -> Result<R, Error> {
+    let v = TBEData2Decrypt::from_tlv(&TLVElement::new(data))?;
+    Ok(f(
+        v.responder_noc.0,
+        v.responder_icac.as_ref().map(|o| o.0),
+        v.signature.0,
+        v.resumption_id.0,
+    ))
+}
+
+#[cfg(all(feature = "verif", feature = "case-resumption"))]
+pub fn verif_dec_sigma2_resume<R>(
+    data: &[u8],
+    f: impl FnOnce(&[u8], &[u8], u16, Option<crate::sc::VerifSessionParams>) -> R,
+) -> Result<R, Error> {
+    let v = Sigma2ResumeMsg::from_tlv(&TLVElement::new(data))?;
+    Ok(f(
+        v.resumption_id.0,
+        v.sigma2_resume_mic.0,
+        v.responder_sessid,
+        v._session_parameters.as_ref().map(|s| s.verif_fields()),
+    ))
+}
+
 /// CASE Initiator for establishing secure sessions with Matter devices using operational
 /// certificates.
 ///
